@@ -325,6 +325,17 @@ def ndjson_cuts(ctx, gp, pname, steps, stream):
         ctx.count("ndjson_line_cut", "a non-stream step is lost" if must_fail else "only items of trailing streams are lost")
         ctx.case(("ndjson-cut", pname, k, nd["out"]), sample={"layer": "typed", "reader": "python ndjson", "protocol": pname, "lines_kept": k,
                                                               "of": len(lines), "reported_error": not r["ok"], "a_non_stream_step_is_lost": must_fail})
+        # the same stream cut INSIDE line k: no proper prefix of a JSON document line is a document, so the reader must fail
+        ln = lines[k]
+        for pos in sorted(set(range(max(1, len(ln) - 12), len(ln))) | {len(ln) // 2}):
+            rp = gp.py_call({"proto": pname, "fin": "ndjson", "fout": "binary", "data": "\n".join(lines[:k]) + "\n" + ln[:pos], "mode": "copy"})
+            ctx.count("ndjson_line_cut", "inside a line")
+            if rp["ok"]:
+                ctx.report("typed:python-ndjson:accepted-truncated:mid-line", "the python NDJSON reader completed normally on a stream whose line %d "
+                           "is cut after %d of %d characters (`%s`, protocol %s)" % (k, pos, len(ln), ln[:pos][-40:], pname),
+                           {"layer": "typed", "reader": "python ndjson", "model": gp.pkg.yaml(), "namespace": gp.pkg.namespace, "protocol": pname,
+                            "ndjson": nd["out"], "line": k, "characters_kept": pos})
+                break
         if must_fail and r["ok"]:
             ctx.report("typed:python-ndjson:accepted-truncated", "the python NDJSON reader completed normally on a stream cut after line %d of %d "
                        "although the lines of the step(s) %s were lost (protocol %s)" % (k, len(lines), sorted(dropped - stream_steps), pname),
@@ -342,6 +353,8 @@ def crafted_ndjson_cuts(ctx):
     un = T("union", "[null, int32, string]", has_null=True, cases=[prim("int32"), prim("string")], tags=["int32", "string"])
     steps = [("h", prim("int32"), False), ("s", prim("int32"), True), ("c", opt, False), ("t", prim("float64"), True), ("u", un, False)]
     pkg.protocols.append(("Pn", steps))
+    steps_m = [("h", prim("int32"), False), ("s", prim("int32"), True)]        # the stream is the last step: nothing after it can complain
+    pkg.protocols.append(("Pm", steps_m))
     gp = genrun.GenPackage(ctx, pkg, "ndcut", ndjson=False, cpp=False)
     if not gp.generate():
         raise RuntimeError("yardl rejected the NDJSON-cut package: " + gp.gen_out[-800:])
@@ -350,13 +363,15 @@ def crafted_ndjson_cuts(ctx):
     try:
         S = lambda s_: ("str", list(s_.encode()))
         for c, u in ((("some", S("note")), ("case", 0, ("int", 7))), (("none",), ("none",)), (("some", S("")), ("case", 1, S("x")))):
-            ws = [("int", 5), [[("int", 1), ("int", 2)], [("int", 3)]], c, [[("bits", 0x3FF0000000000000)]], u]
+            ws = [("int", 5), [[("int", 1234), ("int", 2)], [("int", 98765)]], c, [[("bits", 0x40934A4584F4C6E7)]], u]
             try:
                 stream = ymodel.enc_header(gp.schemas_["Pn"]) + ymodel.enc_steps(steps, ws)
             except Exception:  # noqa: BLE001
                 ws = ymodel.gen_writes(ctx.rng, steps, finite=True, size=2, max_items=3)
                 stream = ymodel.enc_header(gp.schemas_["Pn"]) + ymodel.enc_steps(steps, ws)
             ndjson_cuts(ctx, gp, "Pn", steps, stream)
+        ws_m = [("int", 5), [[("int", 1234), ("int", 98765)], [("int", 4321)]]]
+        ndjson_cuts(ctx, gp, "Pm", steps_m, ymodel.enc_header(gp.schemas_["Pm"]) + ymodel.enc_steps(steps_m, ws_m))
     finally:
         gp.py_stop()
 
